@@ -189,6 +189,7 @@ class SimKernel:
         self.mono = float(cfg.get("mono0", 50000.0))
         self.wall_offset = float(cfg.get("wall_offset", 1700000000.25))
         self.sleep_jitter = cfg.get("sleep_jitter", 0.0)
+        self.clock_cost = cfg.get("clock_cost", 0.0)
         # tables
         self.procs = {}
         self.last_start = {}
@@ -464,7 +465,12 @@ class SimKernel:
             self.sched.yield_point("clock")
         self.digest.update(b"m")
         self.acc_clock()
-        return self.mono
+        now = self.mono
+        if self.clock_cost:
+            # reading the clock takes time itself: two adjacent readings
+            # differ
+            self.advance(self.clock_cost)
+        return now
 
     def acc_clock(self):
         if self.acclog_on:
